@@ -193,9 +193,7 @@ Qed.
 (* ------------------------------------------------------------------------- *)
 (* chapter-name trees, the uniformity hypothesis, alignment                    *)
 (* ------------------------------------------------------------------------- *)
-Inductive shape := Sh (sub : list (name * shape)).
-
-(* the chapter names of a logbook, recursively *)
+(* the chapter names of a logbook, recursively (shape is defined in the model file) *)
 Fixpoint tree_of (l : lb) : shape :=
   match l with LB _ _ cs _ _ => Sh (map (fun kc => (fst kc, tree_of (snd kc))) cs) end.
 
@@ -1352,3 +1350,38 @@ Section StatsLemmas.
     lookup k (ms_register nm f a m) = option_map (st_register nm f a) (lookup k m).
   Proof. unfold ms_register. apply (lookup_map_snd (st_register nm f a)). Qed.
 End StatsLemmas.
+
+(* ------------------------------------------------------------------------- *)
+(* the executable uniformity check implies the hypothesis of the theorems      *)
+(* ------------------------------------------------------------------------- *)
+Lemma nodupb_sound l : nodupb l = true -> NoDup l.
+Proof.
+  induction l as [|x r IH]; cbn; [constructor|]. intro H. apply andb_true_iff in H as [H1 H2].
+  constructor; auto. intro Hin. apply negb_true_iff in H1.
+  assert (existsb (Z.eqb x) r = true); [|congruence].
+  apply existsb_exists. exists x. split; auto. apply Z.eqb_refl.
+Qed.
+
+Lemma has_shapeb_sound : forall fuel infos s, has_shapeb fuel infos s = true -> has_shape infos s.
+Proof.
+  induction fuel as [|f IH]; intros infos [sub] H; [discriminate|]. cbn [has_shapeb] in H.
+  apply andb_true_iff in H as [H H4]. apply andb_true_iff in H as [H H3]. apply andb_true_iff in H as [H1 H2].
+  rewrite forallb_forall in H3, H4.
+  apply nodupb_sound in H1, H2.
+  constructor; auto.
+  - intro k. split.
+    + intro Hk. specialize (H3 _ Hk). apply existsb_exists in H3 as ([k' v] & Hin & E). cbn in E.
+      apply andb_true_iff in E as [E1 E2]. assert (k' = k) by lia. subst k'.
+      destruct v as [z|d]; [discriminate|]. eauto.
+    + intros (d & Hin). specialize (H4 _ Hin). cbn in H4.
+      destruct (lookup k sub) as [sk|] eqn:E; [|discriminate].
+      apply lookup_Some_In in E. apply (in_map fst) in E. exact E.
+  - intros k d s Hin Hs. specialize (H4 _ Hin). cbn in H4.
+    rewrite (In_lookup _ _ _ H2 Hs) in H4. now apply IH.
+Qed.
+
+Lemma uniformb_sound s h : uniformb s h = true -> uniform s h.
+Proof.
+  unfold uniformb, uniform. rewrite forallb_forall. intros H infos Hin.
+  specialize (H _ Hin). cbn beta iota in H. exact (has_shapeb_sound _ _ _ H).
+Qed.
